@@ -371,6 +371,22 @@ fn visible<'a>(consumer: &'a ConsumingIovec<'_>) -> Vec<&'a [u8]> {
     consumer.stable_prefix().iter().map(|s| -> &[u8] { s }).collect()
 }
 
+/// The other ways to look at what is consumable must show the same slices as `stable_prefix`:
+/// iterating over the iovec, and `front`.
+fn views_agree(consumer: &ConsumingIovec<'_>, what: &str) -> Result<(), Fail> {
+    let prefix: Vec<(usize, usize)> = consumer.stable_prefix().iter().map(|s| (s.as_ptr() as usize, s.len())).collect();
+    let iovec: &OwningIovec<'_> = consumer;
+    let iterated: Vec<(usize, usize)> = iovec.into_iter().map(|s| (s.as_ptr() as usize, s.len())).collect();
+    let front = consumer.front().map(|s| (s.as_ptr() as usize, s.len()));
+    if iterated != prefix || front != prefix.first().copied() {
+        return Err(Fail::new(
+            format!("{what}:views-disagree"),
+            format!("{what}: iterating over the iovec shows {} slices and front() is {:?}; stable_prefix() has {} slices", iterated.len(), front.map(|f| f.1), prefix.len()),
+        ));
+    }
+    Ok(())
+}
+
 /// Runs one drain action; returns whether it stopped in the middle of a slice.
 fn do_drain(mut consumer: ConsumingIovec<'_>, seen: &mut Seen, action: Drain, what: &str) -> Result<bool, Fail> {
     let slices: Vec<Vec<u8>> = consumer.stable_prefix().iter().map(|s| s.to_vec()).collect();
@@ -605,6 +621,7 @@ pub fn run_encoder(plain: &[u8], pre: &[u8], side: &Side, check_stream: bool) ->
             // Observe and drain after every call.
             if check_stream {
                 let consumer = encoder.consumer();
+                views_agree(&consumer, "encoder")?;
                 let vis = visible(&consumer);
                 let stable = seen.observe(&vis, "encoder")?;
                 let lag = consumer.total_size() - stable;
@@ -804,6 +821,7 @@ pub fn run_decoder_pre(stream: &[u8], pre: &[u8], side: &Side, check_stream: boo
             }
             {
                 let consumer = decoder.consumer();
+                views_agree(&consumer, "decoder")?;
                 let vis = visible(&consumer);
                 let stable = seen.observe(&vis, "decoder")?;
                 if check_stream {
